@@ -64,9 +64,16 @@ def _log(ctl: str, line: str):
         os.close(fd)
 
 
-def body(nm, ctl, idx, inherit, deps):
+def body(nm, ctl, mode, idx, inherit, deps):
     tag = tag_of(nm, idx, deps[0] if inherit else None)
-    if not ctl:  # free-running mode (plain cf / debug workers, C17): no gates
+    if not ctl:  # free-running mode (plain cf / debug workers, C17): no gates, no log
+        return ["J", tag, [d for d in deps if d is not None]]
+    if mode.startswith("log:"):  # no gates: log start/end, fail if listed (debug worker, C15 sync)
+        _log(ctl, f"S {tag} {os.getpid()}")
+        if tag in mode[4:].split(","):
+            _log(ctl, f"E {tag} err")
+            raise ValueError(f"body {tag} fails as scheduled")
+        _log(ctl, f"E {tag} ok")
         return ["J", tag, [d for d in deps if d is not None]]
     _log(ctl, f"S {tag} {os.getpid()}")
     tok = os.path.join(ctl, tag + ".finish")
@@ -88,6 +95,7 @@ def body(nm, ctl, idx, inherit, deps):
 def Body(
     nm: str,
     ctl: str,
+    mode: str = "gate",
     idx: ty.Any = None,
     inherit: bool = False,
     d0: ty.Any = None,
@@ -97,7 +105,7 @@ def Body(
 ) -> ty.Any:
     from harness.engines.sched_worker import body
 
-    return body(nm, ctl, idx, inherit, [d0, d1, d2, d3])
+    return body(nm, ctl, mode, idx, inherit, [d0, d1, d2, d3])
 
 
 def job_tag(job) -> str:
